@@ -61,3 +61,62 @@ Qed.
 
 Lemma session_same_as_fresh : forall pre c, run_session (pre ++ [c]) = run_session pre ++ run_session [c].
 Proof. intros. unfold run_session. apply map_app. Qed.
+
+(* ---------------------------------------------------------------- extension round *)
+Lemma odf_encrypted_only_if_validated : forall L z o enc,
+  is_odf_encrypted L z o enc = SBool true ->
+  z = true /\ zo_opens o = true /\ validate_zipfile L (zo_infos o) = Accept.
+Proof.
+  intros L z o enc H. unfold is_odf_encrypted in H. destruct z; [|discriminate].
+  unfold open_zipfile in H. destruct (zo_opens o); [|discriminate].
+  destruct (validate_zipfile L (zo_infos o)); try discriminate. auto.
+Qed.
+
+Lemma odf_probe_dominated : forall L c z o, trace_ok (odf_probe_events L c z o) = true.
+Proof.
+  intros. unfold odf_probe_events. destruct z; [|reflexivity]. destruct (zo_opens o); [|reflexivity].
+  destruct (validate_zipfile L (zo_infos o)); cbn; rewrite ?N.eqb_refl; reflexivity.
+Qed.
+
+(* accepted => every claimed size is within the limits *)
+Lemma accept_bounds : forall L es,
+  limits_exact L = true -> sizes_nonneg (files es) = true -> validate L es = Accept ->
+  Z.of_nat (List.length es) <= max_entries L
+  /\ total_u (files es) <= max_total L
+  /\ (forall x, In x (files es) -> file_size x <= max_single L
+                                  /\ (file_size x > 0 -> compress_size x > 0)
+                                  /\ (compress_size x > 0 -> ~ exceeds (file_size x) (compress_size x) (max_entry_ratio L)))
+  /\ (total_c (files es) > 0 -> ~ exceeds (total_u (files es)) (total_c (files es)) (max_total_ratio L)).
+Proof.
+  intros L es HL Hnn HA. apply (accepts_iff L es HL Hnn) in HA. unfold Bomb in HA.
+  assert (NN : forall x, In x (files es) -> 0 <= file_size x /\ 0 <= compress_size x).
+  { intros x Hx. unfold sizes_nonneg in Hnn. rewrite forallb_forall in Hnn. specialize (Hnn x Hx). lia. }
+  repeat split.
+  - destruct (Z_le_gt_dec (Z.of_nat (List.length es)) (max_entries L)); [assumption|]. exfalso. apply HA. left. lia.
+  - destruct (Z_le_gt_dec (total_u (files es)) (max_total L)); [assumption|]. exfalso. apply HA. do 4 right. left. lia.
+  - destruct (Z_le_gt_dec (file_size x) (max_single L)); [assumption|]. exfalso. apply HA. right; left. exists x. split; [assumption|lia].
+  - intro P. destruct (NN x H) as [_ C]. destruct (Z.eq_dec (compress_size x) 0) as [E|E]; [|lia].
+    exfalso. apply HA. right; right; left. exists x. repeat split; assumption.
+  - intros P X. apply HA. right; right; right; left. exists x. repeat split; assumption.
+  - intros P X. apply HA. do 5 right. split; assumption.
+Qed.
+
+Lemma total_out_le : forall out l, reader_truncates out l = true -> 0 <= total_out out l <= total_u l.
+Proof.
+  intros out l. induction l as [|x r IH]; cbn [reader_truncates forallb total_out total_u fold_right]; intros H; [lia|].
+  apply andb_prop in H. destruct H as [Hx Hr]. specialize (IH Hr). unfold total_out, total_u in IH. lia.
+Qed.
+
+(* if a reader never obtains more than the central directory's file_size from a member (zipfile truncates),
+   an accepted container costs at most max_total bytes in all and max_single per member *)
+Lemma accepted_output_bounded : forall L es out,
+  limits_exact L = true -> sizes_nonneg (files es) = true -> validate L es = Accept ->
+  reader_truncates out (files es) = true ->
+  total_out out (files es) <= max_total L /\ forall x, In x (files es) -> out x <= max_single L.
+Proof.
+  intros L es out HL Hnn HA HT. destruct (accept_bounds L es HL Hnn HA) as [_ [T [E _]]].
+  split.
+  - pose proof (total_out_le out _ HT). lia.
+  - intros x Hx. destruct (E x Hx) as [S _]. unfold reader_truncates in HT. rewrite forallb_forall in HT.
+    specialize (HT x Hx). lia.
+Qed.
